@@ -421,6 +421,41 @@ def fault_composites(res, ctx, rng, fams):
             return
 
 
+def cold_start(res, ctx, rng, fams):
+    """Every flag family decoded for the FIRST time in a process by several OS threads at once (vlib/coldstart.py): the
+    names shown are those a warm single-threaded run shows (and those were judged bit by bit above)."""
+    from vlib import stream
+    cases = []
+    for name, which, idx, xf, key in pipeline_users():
+        fam = fams[key]
+        for v in (fam.all_bits, sum(sorted(fam.single.values())[::2])):
+            start = domain.gen_words(rng, name, 'S')
+            end = domain.gen_words(rng, name, 'E')
+            if name.startswith('BSC_'):
+                end[0] = 0
+            if which == 'S':
+                if name.startswith('RealFault'):
+                    start[idx] = (0x11 << 16) | ((v & 0xff) << 8) | 3
+                elif name == 'PERF_THD_Data':
+                    start[idx] = (0x22 << 16) | (v & 0xffff)
+                else:
+                    start[idx] = v
+            else:
+                end[idx] = v
+            if name in ('PERF_THD_Data', 'PERF_STK_UHdr') or name.startswith('RealFault') or \
+                    name in ('MACH_SCHED', 'MACH_BLOCK', 'MACH_DISPATCH'):
+                seq = [H.A(name, H.NONE, start)]
+            else:
+                seq = H.syscall(name, start, end)
+            try:
+                parser = ev.new_parser()
+                texts = [str(t) for t in (parser.feed(e) for e in H.materialize(H.on_thread(6, seq), t0=5000)) if t is not None]
+            except Exception:
+                continue                # (judged by drive_pipeline)
+            cases.append((seq, texts, f'{name} with {fam.label} word {hex(v)}'))
+    stream.run_cold(res, 'c11', cases, rng, 'flag words', n_procs=ctx.pick(8, 24), n_cases=len(cases))
+
+
 IOC_RE = re.compile(r"/\* _IOC\((.*?), '(.)', (\d+), (\d+)\) \*/", re.S)
 
 
@@ -489,6 +524,8 @@ def run(ctx):
     drive_pipeline(res, ctx, rng, fams)
     sampler_composites(res, ctx, rng, fams)
     fault_composites(res, ctx, rng, fams)
+    if ctx.shard == 0 or ctx.thorough:
+        cold_start(res, ctx, rng, fams)
     drive_ioctl(res, ctx, rng)
     if ctx.shard == 0:
         from pykdebugparser.trace_handlers import bsd
@@ -503,6 +540,7 @@ def run(ctx):
     res.require('ioctl_words_checked', 100)
     res.require('sampler_composites_checked', 20)
     res.require('fault_composites_checked', 50)
+    res.require('cold_start_interpreters', 8)
     res.require('enum_values_compared_with_reference', 50)
     return res
 
